@@ -9,6 +9,10 @@ spaces and models), one other object, one Interface, and the files a.csv, d.csv,
 `sub/../a.csv`, `sub/./a.csv` ...), run on the real modelx and on the Lean model `MxModel.IOSpec`
 (theorems in Props/C18.lean).
 
+The registry of file objects (IOManager.ios: which key a file is filed under, relative and ABSOLUTE paths, the
+path setter in all four directions) is compared on every stream with `MxModel.IOKeys` (commands kclaim / kmove /
+kdrop / kobs of the same driver layer).
+
 Nothing is answered in the library's place: operations through the handles of CLOSED models and of
 DELETED spaces are performed for real and what modelx does is the observation (a closed model goes
 on working - it only left the registry -, a deleted space raises DeletedObjectError).  The harness
@@ -31,10 +35,10 @@ Oracle (implementation only), after every op and for every open model:
   O8 mxsys._check_sanity() does not raise;
   O9 (a sample in the quick tier, every clean history in the thorough tier) write + read_model:
      every spec'd value is read back equal under every name it was bound to.
-Six defects are known findings (new_pandas onto a scalar cells name, new_pandas twice for one value,
+Four defects are known findings (new_pandas onto a scalar cells name, new_pandas twice for one value,
 del model.S of a space holding tracked references, update_pandas onto an object that is already
-referenced, new_pandas through the handle of a closed model, two spellings of one file location);
-five others found by this check were repaired in /repo and their witnesses are
+referenced) and so is the design of ios under absolute paths (oracle-only stream: they have no model, and
+an absolute path can denote the file of a relative one); seven others found by this check were repaired in /repo and their witnesses are
 regression inputs (corpus/C18/fixed-*.json, no key, must pass).
 A failure is attributed to a known finding only if (a) the oracle recognised the trigger from the
 implementation's own state before the op and (b) the Lean model flags the same op with the same
@@ -63,14 +67,15 @@ KEYS = {
     "double-spec": "C18-double-spec",
     "del-space": "C18-del-space",
     "update-onto-referenced": "C18-update-onto-referenced",
-    "closed-model-new-spec": "C18-closed-model-new-spec",
-    "path-alias": "C18-path-alias",
-    "absolute-io": "C18-absolute-io-shared",
+    # the three symptom classes of the recorded design of ios under ABSOLUTE paths (no Lean model for them):
+    "abs-rel-alias": "C18-absolute-io-shared",   # an absolute and a relative key denote one file
+    "abs-to-rel": "C18-absolute-io-shared",      # the path setter absolute -> relative keeps group None
+    "abs-readback": "C18-absolute-io-shared",    # read_model while the writer of an absolute spec is open
 }
 # a failure of these oracle items is attributed to the trigger also when the trigger was met EARLIER in the
 # history (the aliasing op itself need not break anything: two sheets of one workbook through two ios), provided
 # the implementation's state at the moment of the failure still shows the condition (World.state_flags)
-STICKY = {"path-alias": ("O5", "O9"), "absolute-io": ("O1", "O5", "O9")}
+STICKY = {"abs-rel-alias": ("O5", "O9"), "abs-to-rel": ("O1", "O5", "O9")}
 
 
 def spell(rng, path, absolute=False):
@@ -331,7 +336,11 @@ class World:
         return os.path.join(self.tmp, "saved_m%d" % m)
 
     def path_arg(self, m, path):
-        return os.path.join(self.root(m), path[len(ABS):]) if path.startswith(ABS) else path
+        """`@/x`: the absolute path of x below the folder model m is written to; `@<k>/x`: below model k's"""
+        if path.startswith("@"):
+            head, _, rest = path[1:].partition("/")
+            return os.path.join(self.root(int(head) if head else m), rest)
+        return path
 
     def location(self, m, path):
         """the file on disk a (relative or absolute) io path of model m denotes"""
@@ -345,18 +354,23 @@ class World:
             locs = {}
             for path, _ in self.ios_of(m):
                 locs.setdefault(self.location(m, path), set()).add(path)
-            if any(len(v) > 1 for v in locs.values()):
-                flags.add("path-alias")
-        if any(grp is None for (grp, _) in mx.core.mxsys.iomanager.ios):
-            flags.add("absolute-io")
+            if any(any(p.is_absolute() for p in v) and any(not p.is_absolute() for p in v) for v in locs.values()):
+                flags.add("abs-rel-alias")
+        for (grp, path) in mx.core.mxsys.iomanager.ios:
+            if grp is None and not path.is_absolute():
+                flags.add("abs-to-rel")
+            if grp is None and path.is_absolute():
+                flags.add("abs-readback")
         return flags
 
     def ios_of(self, m):
         """[(key path, io)] of model m; ios under absolute paths have no group - they are counted for
         the model in the single-model stream that produces them"""
         model = self.models[m]
+        mine = {id(r.interface) for _, _, r in self.refs_of(m)}
         return [(path, io) for (grp, path), io in mx.core.mxsys.iomanager.ios.items()
-                if grp is model or (grp is None and len(self.models) == 1)]
+                if grp is model or (grp is None and (len(self.models) == 1
+                                                     or any(id(sp.value) in mine for sp in io.specs.values())))]
 
     # -- state read from the implementation
     def refs_of(self, m, defined_only=False):
@@ -589,20 +603,19 @@ def pre_trigger(w, op):
                 trig.append("cells-name")
             if iom.get_spec_from_value(model, data) is not None:
                 trig.append("double-spec")
-            if m not in w.open:
-                trig.append("closed-model-new-spec")
         if kind in ("newpandas", "setpath"):
             # another key of the model denotes the requested file in another spelling
             import pathlib
             arg = w.path_arg(m, op[4] if kind == "newpandas" else op[3])
             key, loc = pathlib.Path(arg), w.location(m, arg)
-            if any(path != key and w.location(m, path) == loc for path, _ in w.ios_of(m)):
-                trig.append("path-alias")
-            # ios under absolute paths have no group: one io per path for the whole session
-            if key.is_absolute() or (kind == "setpath" and any(
+            if any(w.location(m, path) == loc and path.is_absolute() != key.is_absolute()
+                   for path, _ in w.ios_of(m)):
+                trig.append("abs-rel-alias")
+            # the path setter from an absolute to a relative path: the io keeps the group None
+            if kind == "setpath" and not key.is_absolute() and any(
                     grp is None and any(sp.value is w.val(op[2], m) for sp in io.specs.values())
-                    for (grp, _), io in iom.ios.items())):
-                trig.append("absolute-io")
+                    for (grp, _), io in iom.ios.items()):
+                trig.append("abs-to-rel")
         if kind == "del":
             if s == 0:
                 for (mm, ss), sp in w.spaces.items():
@@ -682,6 +695,19 @@ def oracle_step(w, op, res, snap, out_fail):
                 out_fail("a rejected new_pandas changed the registered specs", "O6")
             if snap.refs.get(m) != [(s, n, id(r.interface)) for s, n, r in refs]:
                 out_fail("a rejected new_pandas changed the references", "O6")
+    # O5, files under absolute paths are session-wide: whatever group their file objects are filed under
+    absfiles = {}
+    for (grp, path), io in iom.ios.items():
+        if path.is_absolute():
+            absfiles.setdefault(os.path.normpath(str(path)), []).extend(
+                (io, s) for s in io.specs.values())
+    for loc, claims in sorted(absfiles.items()):
+        if len(claims) > 1:
+            sheets = [s.sheet for _, s in claims]
+            if (any(io.file_type == "csv" for io, _ in claims) or None in sheets
+                    or len(set(sheets)) != len(sheets) or len({id(io) for io, _ in claims}) > 1):
+                out_fail("two specs claim the same file location (<abs>/%s: sheets %s, %d file objects)" % (
+                    os.path.basename(loc), sorted(str(x) for x in sheets), len({id(io) for io, _ in claims})), "O5")
     # O7
     for m in sorted(set(w.models) - w.open):
         if any(grp is w.models[m] for (grp, _) in iom.ios):
@@ -745,6 +771,47 @@ def run_history(ops, out, stats, do_roundtrip=False, with_model=True):
     try:
         w = World(tmp)
         impl_lines, model_ops, index_map = [], ["reset"], []
+        # the registry of file objects (Kernels/IOKeys.lean): what is claimed, moved and dropped, by identity
+        kops, kexp, kidx = ["reset"], ["ok"], [0]
+        kids, kkeep, knext = {}, [], [0]
+
+        def gname(grp):
+            return "-" if grp is None else str(w.model_index(grp))
+
+        def key_step(k, op, res, moved):
+            """mirror op k on the key model: `moved` = file object the path setter addressed (looked up before)"""
+            now = list(iom.ios.items())
+            present = {id(io) for _, io in now}
+            if op[0] == "setpath" and moved is not None and id(moved) in kids:
+                kops.append("kmove %d %s" % (kids[id(moved)], w.path_arg(int(op[1]), op[3])))
+                kexp.append("ok" if res == "ok" else "refused")
+                kidx.append(k)
+            if op[0] == "newpandas" and res == "ok":
+                arg = w.path_arg(int(op[1]), op[4])
+                new = [io for _, io in now if id(io) not in kids]
+                kops.append("kclaim %s %s" % (op[1], arg))
+                if new:
+                    kids[id(new[0])] = knext[0]
+                    kkeep.append(new[0])
+                    kexp.append("created %d" % knext[0])
+                    knext[0] += 1
+                else:
+                    import pathlib
+                    want = pathlib.Path(os.path.normpath(arg))
+                    grp = None if want.is_absolute() else w.models[int(op[1])]
+                    hit = [io for (g, p), io in now if p == want and g is grp]
+                    kexp.append("existing %d" % kids.get(id(hit[0]), -1) if hit else "existing ?")
+                kidx.append(k)
+            for oid, kid in list(kids.items()):
+                if oid not in present:
+                    kops.append("kdrop %d" % kid)
+                    kexp.append("ok")
+                    kidx.append(k)
+                    del kids[oid]
+            kops.append("kobs")
+            kexp.append(" ".join(sorted("%s:%s#%s" % (gname(g), p.as_posix(), kids.get(id(io), "?"))
+                                        for (g, p), io in now)))
+            kidx.append(k)
         trig_at = {}
         silent = False
         executed = 0
@@ -754,7 +821,15 @@ def run_history(ops, out, stats, do_roundtrip=False, with_model=True):
                 break
             snap = Snapshot(w)
             trig = pre_trigger(w, op)
+            moved = None
+            if op[0] == "setpath" and int(op[1]) in w.models:
+                try:
+                    sp_ = iom.get_spec_from_value(w.models[int(op[1])], w.val(op[2], int(op[1])))
+                    moved = sp_.io if sp_ is not None else None
+                except Exception:
+                    moved = None
             res = w.apply(op)
+            key_step(k, op, res, moved)
             executed = k + 1
             stats[op[0]] = stats.get(op[0], 0) + 1
             if res.startswith("err"):
@@ -832,6 +907,15 @@ def run_history(ops, out, stats, do_roundtrip=False, with_model=True):
                     first_dis = (k, canon(a), canon(b))
         if first_dis is not None:
             out.disagree(ops, first_dis[0], first_dis[1], first_dis[2], layer="iospec")
+        # ---- the registry of file objects (every stream: relative and absolute paths)
+        klines = core.run_driver("iospec", kops)
+        for j, (a, b) in enumerate(zip(kexp, klines)):
+            if kops[j] == "kobs":
+                b = " ".join(sorted(b.split()))
+            if a != b:
+                out.disagree(ops, kidx[j], "%s -> %s" % (kops[j], a), "%s -> %s" % (kops[j], b), layer="iokeys")
+                break
+        stats["key_ops"] = stats.get("key_ops", 0) + len(kops)
         for k, t in trig_at.items():
             for name in t:
                 stats["trigger:" + name] = stats.get("trigger:" + name, 0) + 1
@@ -843,8 +927,14 @@ def run_history(ops, out, stats, do_roundtrip=False, with_model=True):
             cands = [t for t in trig if t in model_trig.get(k, [])] if with_model else list(trig)
             impl_seen = {t for j, tl in trig_at.items() if j <= k for t in tl}
             model_seen = {t for j, tl in model_trig.items() if j <= k for t in tl}
+            if not with_model:
+                # the absolute-path classes are recognised on the implementation alone, and only while its
+                # state shows the condition
+                cands = [t for t in cands if t not in STICKY or t in flags]
+                if item == "O9" and "raises" in what and "abs-readback" in flags:
+                    cands.append("abs-readback")
             for t in sorted(flags):
-                if (item in STICKY[t] and t in impl_seen and (t in model_seen or not with_model)
+                if (t in STICKY and item in STICKY[t] and t in impl_seen and not with_model
                         and t not in cands):
                     cands.append(t)
             if cands:
@@ -860,11 +950,39 @@ def run_history(ops, out, stats, do_roundtrip=False, with_model=True):
         shutil.rmtree(tmp, ignore_errors=True)
 
 
+def move_scenarios():
+    """every kind of path change (relative/absolute source x relative/absolute destination), then a creation on
+    the DESTINATION (it must be refused where it is the same file) and one on the SOURCE (free again), from the
+    same and from another model; csv files (one spec per file) and one workbook with two sheets"""
+    res = []
+    kinds = {"rel": ("a.csv", "sub/d.csv"), "abs": ("@0/a.csv", "@0/sub/d.csv")}
+    for src_kind in ("rel", "abs"):
+        for dst_kind in ("rel", "abs"):
+            src, dst = kinds[src_kind][0], kinds[dst_kind][1]
+            for who in ("0", "1"):
+                h = [["newmodel", "0"], ["newspace", "0", "1", "S1"], ["newmodel", "1"], ["newspace", "1", "1", "S1"],
+                     ["newpandas", "0", "1", "x", src, "csv", "-", "d0"],
+                     ["setpath", "0", "d0", dst],
+                     ["newpandas", who, "1", "y", dst, "csv", "-", "d1"],
+                     ["newpandas", who, "1", "z", src, "csv", "-", "d2"],
+                     ["setpath", who, "d2", dst],
+                     ["del", "0", "1", "x"],
+                     ["newpandas", who, "1", "w", dst, "csv", "-", "d3"]]
+                res.append(h)
+    # a workbook moved out of the model, a second sheet added through the absolute path, a clash of sheets
+    res.append([["newmodel", "0"], ["newspace", "0", "1", "S1"],
+                ["newpandas", "0", "1", "x", "b.xlsx", "xl", "s1", "d0"], ["setpath", "0", "d0", "@0/out/b.xlsx"],
+                ["newpandas", "0", "1", "y", "@0/out/b.xlsx", "xl", "s2", "d1"],
+                ["newpandas", "0", "1", "z", "@0/out/./b.xlsx", "xl", "s1", "d2"],
+                ["setpath", "0", "d1", "@0/out2/b.xlsx"], ["newpandas", "0", "1", "z", "b.xlsx", "xl", "s1", "d2"]])
+    return res
+
+
 def no_model(h):
     """histories outside the Lean model: inheritance between spaces, absolute paths"""
     return any(o[0] in ("addbase", "rmbase") or (o[0] == "newspace" and len(o) > 4)
-               or (o[0] == "newpandas" and o[4].startswith(ABS))
-               or (o[0] == "setpath" and o[3].startswith(ABS)) for o in h)
+               or (o[0] == "newpandas" and o[4].startswith("@"))
+               or (o[0] == "setpath" and o[3].startswith("@")) for o in h)
 
 
 def shrink_failure(f, budget=160):
@@ -942,8 +1060,13 @@ def run(ctx, out):
         feats, executed = run_history(h, out, astats, do_roundtrip=(i % rt_every == 0), with_model=False)
         total_ops += executed
         seen.add(repr(h))
+    for h in move_scenarios():
+        feats, executed = run_history(h, out, astats, do_roundtrip=False, with_model=False)
+        total_ops += executed
+        seen.add(repr(h))
     stats["absolute_path_stream"] = dict(sorted(astats.items()))
     stats["absolute_path_stream"]["histories"] = n_abs
+    stats["absolute_path_stream"]["move_scenarios"] = len(move_scenarios())
     for i, h in enumerate(hists):
         feats, executed = run_history(h, out, stats, do_roundtrip=(i < len(corpus) or i % rt_every == 0),
                                       with_model=not no_model(h))
